@@ -183,15 +183,20 @@ Definition expect_ok (x : expect) (seen : list obs) : bool :=
 
 Definition is_run_expect (x : expect) : bool := match x with XSend _ _ => false | _ => true end.
 
-(* violated expectations of one kind *)
+(* violated expectations of one kind. [seen] collects the observations of the canary phase
+   only (from the first operation that carries an expectation): a delivery made during
+   the hostile part of the history never satisfies a canary. A case whose observation
+   list does not match its operation list satisfies nothing. *)
 Fixpoint canaries_ok (runs : bool) (ops : list (op * option expect * bool)) (os seen : list obs) : bool :=
   match ops, os with
+  | [], [] => true
   | (_, x, _) :: ro, o :: rb =>
+      let seen' := match x, seen with None, [] => [] | _, _ => o :: seen end in
       (match x with
-       | Some e => negb (Bool.eqb (is_run_expect e) runs) || expect_ok e (o :: seen)
+       | Some e => negb (Bool.eqb (is_run_expect e) runs) || expect_ok e seen'
        | None => true
-       end) && canaries_ok runs ro rb (o :: seen)
-  | _, _ => true
+       end) && canaries_ok runs ro rb seen'
+  | _, _ => false
   end.
 
 Definition check (c : case) : list nat :=
